@@ -215,3 +215,24 @@ func init() {
 		fmt.Fprintln(os.Stderr, "final:", res.Final, "outs:", string(res.TopOuts))
 	})
 }
+
+// TBC: run the Tier-B checks (C05, C06, C12 parts) once.
+func init() {
+	register("TBC", func(c *Ctx) {
+		c.Res.Histogram = map[string]int{}
+		env, err := tbSetup(c)
+		if err != nil {
+			fatal("%v", err)
+		}
+		which := os.Getenv("TBC")
+		if which == "" || strings.Contains(which, "12") {
+			tbC12(c, env, 4)
+		}
+		if which == "" || strings.Contains(which, "05") {
+			tbC05(c, env, 2)
+		}
+		if which == "" || strings.Contains(which, "06") {
+			tbC06(c, env, 2)
+		}
+	})
+}
